@@ -84,3 +84,37 @@ Print Assumptions C03_cron_pinned_refuted.
 
 (* non-vacuity: an accepted trace of this configuration with a work-function start *)
 Example C03_cron_nonvacuous := VSysProofs.V_nonvacuous.
+
+(* ---- finer than the property's quantifier: a cron edit BETWEEN the Peek and the Pop that one
+   volatileTaskRepo.MarkAsDispatched issues (model VSplit.v: VSys.v plus the label XSplitMark) ----
+   The property holds there too, for every schedule function and every accepted extended trace. *)
+From GK Require Import VSplit.
+From GK.Proofs Require VSplitProofs.
+Theorem C03_cron_split_no_early_start : forall nxt sc tr s,
+  sc_clock_check sc = true -> xrun nxt sc vsys_init tr = Some s ->
+  forall id n snap, In (id, n, snap) (vs_starts s) -> inst (t_sched snap) <= inst n.
+Proof. exact VSplitProofs.XC03_no_early_start. Qed.
+Print Assumptions C03_cron_split_no_early_start.
+
+Theorem C03_cron_split_predicate_holds : forall nxt sc tr s,
+  sc_clock_check sc = true -> xrun nxt sc vsys_init tr = Some s -> vc03_ok (xplain tr) = true.
+Proof. exact VSplitProofs.XC03_predicate_holds. Qed.
+Print Assumptions C03_cron_split_predicate_holds.
+
+(* the extension is conservative: without the new label the extended monitor is VSys.v's *)
+Theorem C03_cron_split_conservative : forall nxt sc tr s,
+  xrun nxt sc s (map XL tr) = VSysProofs.vrun nxt sc s tr.
+Proof. exact VSplitProofs.X_conservative. Qed.
+Print Assumptions C03_cron_split_conservative.
+
+(* the split call leaves the volatile repository's record, the acceptances and the starts alone: the fetcher's GetById
+   still returns the announced task *)
+Theorem C03_cron_split_keeps_record : forall nxt sc s now id rm ad ok r s',
+  xsys_step nxt sc s (XSplitMark now id rm ad ok r) = Some s' ->
+  vs_record s' = vs_record s /\ vs_starts s' = vs_starts s /\ vs_accepted s' = vs_accepted s /\ vs_ids s' = vs_ids s.
+Proof. exact VSplitProofs.X_split_keeps_record. Qed.
+Print Assumptions C03_cron_split_keeps_record.
+
+(* non-vacuity and observation O4: an accepted extended trace with one split call, in which Pop discards a not yet due
+   occurrence of ANOTHER entry while the task of the removed entry still starts (at its own time) *)
+Example C03_cron_split_nonvacuous := VSplitProofs.X_split_discards_an_occurrence.
